@@ -1,3 +1,4 @@
+import FractopoModel.Generated.ValidationUtils
 import FractopoModel.Generated.Windows
 import FractopoModel.Generated.ValidationDefaults
 import FractopoModel.Generated.JunctionShift
@@ -157,5 +158,116 @@ example :
       () [()] (1 / 100) (11 / 10) "x" = .ok (false, "UNDERLAPPING SNAP") := by decide +kernel
 
 example : Gen.underlap_window (21 / 2000) (1 / 100) (11 / 10) = true ∧ Gen.underlap_window (1 / 100) (1 / 100) (11 / 10) = false := by decide +kernel
+
+/-! ### regenerated decision skeletons of trace_validation_utils.py -/
+
+section Utils
+variable {L S P : Type}
+
+theorem underlap_loop_eq (split_ : L → L → Option (List S)) (sdist : S → P → Rat) (geom trace : L) (ep : P) (t m : Rat) (all l : List S) :
+    Gen.is_underlapping_loop1 split_ sdist geom trace ep t m all l =
+      if l.any (fun sg => decide (sdist sg ep < t * m)) then .ret (some false) else .done () := by
+  induction l with
+  | nil => simp [Gen.is_underlapping_loop1]
+  | cons a rest ih =>
+    simp only [Gen.is_underlapping_loop1, List.any_cons]
+    by_cases h : sdist a ep < t * m
+    · simp [h]
+    · simp [h, ih]
+
+/-- **The under/overlap decision** (`is_underlapping`, regenerated): unresolved (`None`) when the split fails; *underlapping* when
+the split leaves the trace in one piece (no intersection); *overlapping* when it is cut and some piece lies strictly within the
+error distance `t·m` of the end (the dangling stub); unresolved otherwise. -/
+theorem C10_generated_is_underlapping (split_ : L → L → Option (List S)) (sdist : S → P → Rat) (geom trace : L) (ep : P) (t m : Rat) :
+    Gen.is_underlapping split_ sdist geom trace ep t m =
+      match split_ geom trace with
+      | none => none
+      | some ps =>
+        if ps.length = 1 then some true
+        else if ps.length > 1 && ps.any (fun sg => decide (sdist sg ep < t * m)) then some false
+        else none := by
+  unfold Gen.is_underlapping
+  cases split_ geom trace with
+  | none => rfl
+  | some ps =>
+    simp only [underlap_loop_eq]
+    by_cases h1 : ps.length = 1
+    · simp [h1]
+    · by_cases h2 : ps.length > 1
+      · by_cases h3 : ps.any (fun sg => decide (sdist sg ep < t * m)) = true
+        · simp [h1, h2, h3]
+        · simp [h1, h2, h3]
+      · simp [h1, h2]
+
+theorem middle_loop_eq (ssdist : S → S → Rat) (segments : List S) (t m : Rat) (l : List (S × Nat)) (acc : List S) :
+    Gen.determine_middle_in_triangle_loop1 ssdist segments t m l acc =
+      acc ++ (l.filter fun x => decide (((segments.eraseIdx x.2).countP fun o => decide (ssdist x.1 o < t * m)) ≥ 2)).map (·.1) := by
+  induction l generalizing acc with
+  | nil => simp [Gen.determine_middle_in_triangle_loop1]
+  | cons x rest ih =>
+    obtain ⟨sg, i⟩ := x
+    simp only [Gen.determine_middle_in_triangle_loop1, List.filter_cons]
+    have hc : (decide ((((List.countP (fun other => decide (ssdist sg other < t * m)) (segments.eraseIdx i) : Nat) : Rat)) ≥ (2 : Rat)))
+        = decide ((List.countP (fun o => decide (ssdist sg o < t * m)) (segments.eraseIdx i)) ≥ 2) := by
+      rw [decide_eq_decide]
+      constructor
+      · intro h; exact_mod_cast h
+      · intro h; exact_mod_cast h
+    rw [hc]
+    by_cases h : (List.countP (fun o => decide (ssdist sg o < t * m)) (segments.eraseIdx i)) ≥ 2
+    · simp [h, ih]
+    · simp [h, ih]
+
+/-- **The middle of a small triangle** (`determine_middle_in_triangle`, regenerated): the pieces that are strictly within `t·m` of at
+least two of the OTHER pieces, in order. -/
+theorem C10_generated_middle_in_triangle (ssdist : S → S → Rat) (segments : List S) (t m : Rat) :
+    Gen.determine_middle_in_triangle ssdist segments t m =
+      (segments.zipIdx.filter fun x => decide (((segments.eraseIdx x.2).countP fun o => decide (ssdist x.1 o < t * m)) ≥ 2)).map (·.1) := by
+  unfold Gen.determine_middle_in_triangle
+  simp [middle_loop_eq]
+
+theorem triangle_loop_eq (split_ : L → L → Option (List S)) (ip : L → L → Bool) (ssdist : S → S → Rat) (slen : S → Rat) (tr sp : L) (t k : Rat) (all l : List Rat) :
+    Gen.split_to_determine_triangle_errors_loop1 split_ ip ssdist slen tr sp t k all l =
+      if l.any (fun x => decide (t / k < x) && decide (x < t * k)) then .ret true else .done () := by
+  induction l with
+  | nil => simp [Gen.split_to_determine_triangle_errors_loop1]
+  | cons a rest ih =>
+    simp only [Gen.split_to_determine_triangle_errors_loop1, List.any_cons]
+    by_cases h : (decide (t / k < a) && decide (a < t * k)) = true
+    · simp [h]
+    · simp [h, ih]
+
+/-- **The small-triangle flavour of STACKED TRACES** (`split_to_determine_triangle_errors`, regenerated): when the split fails the
+verdict is "error" unless the two traces meet in a single point; when the split yields more than three pieces it is an error;
+with exactly three pieces it is an error iff one of the relevant pieces -- the middle ones (`C10_generated_middle_in_triangle`) if
+there are any, else all three -- has a length strictly inside the window `(t / k, t · k)`; with one or two pieces never. -/
+theorem C10_generated_triangle (split_ : L → L → Option (List S)) (ip : L → L → Bool) (ssdist : S → S → Rat) (slen : S → Rat) (tr sp : L) (t k : Rat) :
+    Gen.split_to_determine_triangle_errors split_ ip ssdist slen tr sp t k =
+      match split_ tr sp with
+      | none => !ip tr sp
+      | some segs =>
+        if segs.length > 3 then true
+        else if segs.length > 2 then
+          let middle := Gen.determine_middle_in_triangle ssdist segs t k
+          ((if middle.length > 0 then middle else segs).map slen).any fun x => decide (t / k < x) && decide (x < t * k)
+        else false := by
+  unfold Gen.split_to_determine_triangle_errors
+  cases split_ tr sp with
+  | none => cases ip tr sp <;> rfl
+  | some segs =>
+    simp only [triangle_loop_eq]
+    by_cases h3 : segs.length > 3
+    · have h2 : segs.length > 2 := by omega
+      simp [h3, h2]
+    · by_cases h2 : segs.length > 2
+      · simp only [h3, h2, decide_true, decide_false, if_true, Bool.false_eq_true, if_false]
+        by_cases hm : (Gen.determine_middle_in_triangle ssdist segs t k).length > 0
+        · simp only [hm, decide_true, if_true]
+          cases List.any (List.map slen (Gen.determine_middle_in_triangle ssdist segs t k)) (fun x => decide (t / k < x) && decide (x < t * k)) <;> simp
+        · simp only [hm, decide_false, Bool.false_eq_true, if_false]
+          cases List.any (List.map slen segs) (fun x => decide (t / k < x) && decide (x < t * k)) <;> simp
+      · simp [h3, h2]
+
+end Utils
 
 end C10
